@@ -203,6 +203,17 @@ def _digest(obj):
     return hashlib.sha1(json.dumps(obj, sort_keys=True, default=str).encode()).hexdigest()[:12]
 
 
+import contextlib
+import io
+
+
+@contextlib.contextmanager
+def _quiet():
+    """the repository prints diagnostics on some error paths; keep the check's stdout clean"""
+    with contextlib.redirect_stdout(io.StringIO()):
+        yield
+
+
 def eval_clauses(clauses):
     """all-concrete oracle evaluation -> list of violated clause names"""
     bad = []
@@ -242,7 +253,8 @@ def explore_shape(prop, SH, OR, shape, validate=True, max_paths=None):
             if res['sample'] is None:
                 res['sample'] = prop.sample(shape, cinp)
             if validate:
-                cobs = prop.execute(OR, shape, cinp)
+                with _quiet():
+                    cobs = prop.execute(OR, shape, cinp)
                 sym_obs = norm(concretize(obs, wit))
                 real_obs = norm(cobs)
                 if sym_obs != real_obs:
@@ -290,7 +302,8 @@ def explore_shape(prop, SH, OR, shape, validate=True, max_paths=None):
 
 def replay_record(prop, OR, shape, cinp):
     """run the real code on a concrete input; return (violated clause names, obs)"""
-    cobs = prop.execute(OR, shape, cinp)
+    with _quiet():
+        cobs = prop.execute(OR, shape, cinp)
     clauses = prop.oracle(shape, cinp, cobs)
     return eval_clauses(clauses), cobs
 
